@@ -402,13 +402,20 @@ func init() {
 			if !want("config") {
 				ncfg = 0
 			}
+			ncue := argInt(args, "ncue", 300)
+			if !want("cuegen") {
+				ncue = 0
+			}
 			rm, ri, rp, rv, rc := newRng(seed*7+1), newRng(seed*7+2), newRng(seed*7+3), newRng(seed*7+4), newRng(seed*7+5)
 			_ = ri
-			for i := 0; i < nmut || i < nir || i < npy || i < nvy || i < ncfg; i++ {
+			for i := 0; i < nmut || i < nir || i < npy || i < nvy || i < ncfg || i < ncue; i++ {
 				// fault rate per node: none / rare / frequent, cycling
 				fault := []int{0, 1, 1, 2, 4, 8}[i%6]
 				if faultArg >= 0 {
 					fault = faultArg
+				}
+				if i < ncue {
+					cases <- c04CueGenCase(seed, i)
 				}
 				if i < nmut {
 					cases <- c04MutCase(rm, seeds, i)
